@@ -265,7 +265,22 @@ def gen_history(rng, n_ops=14):
             ops.append(["advance", rng.choice([1.5, 50.5, 99.5, 100.5, 1000.5])])
         else:
             ops.append(["fclear", rng.choice(funcs)["name"]])
-    return {"funcs": funcs, "pool": pool, "ops": ops}
+    hist = {"funcs": funcs, "pool": pool, "ops": ops}
+    if rng.random() < 0.15:
+        # the same functions cached at two store locations by the same processes
+        hist["two_locations"] = True
+        for op in ops:
+            if op[0] in ("call", "shelve", "check", "callcb"):
+                op[1] = dict(op[1], loc=rng.choice([0, 0, 1]))
+            elif op[0] in ("clear", "reduce_all", "fclear"):
+                op.append({"loc": rng.choice([0, 1])})
+    return hist
+
+
+def _loc(op):
+    if op[0] in ("call", "shelve", "check", "callcb"):
+        return op[1].get("loc", 0)
+    return op[-1]["loc"] if isinstance(op[-1], dict) and "loc" in op[-1] else 0
 
 
 def toggle_defaults(rng, prev, fn):
@@ -377,16 +392,17 @@ def session(root, hist, start, t0, compress):
     _LAYOUT_PAD = [bytearray(64 + (start * 37 + k) % 200) for k in range(500 + 131 * (start + 1))]
     clock = simfs.Clock(t0).install()
     umod = simfs.load_module(root, "umod")
-    mem = Memory(os.path.join(root, "cache"), verbose=0, compress=compress)
+    mems = [Memory(os.path.join(root, "cache"), verbose=0, compress=compress),
+            Memory(os.path.join(root, "cache_b"), verbose=0, compress=compress)]
     ignore = {f["name"]: f["ignore"] for f in hist["funcs"]}
     cached = {}; cachedcb = {}
 
-    def get(name, cb=False):
+    def get(name, cb=False, loc=0):
         tab = cachedcb if cb else cached
-        if name not in tab:
-            tab[name] = mem.cache(resolve_target(umod, name), ignore=ignore.get(name) or None,
-                                  cache_validation_callback=expires_after(seconds=100) if cb else None)
-        return tab[name]
+        if (name, loc) not in tab:
+            tab[(name, loc)] = mems[loc].cache(resolve_target(umod, name), ignore=ignore.get(name) or None,
+                                              cache_validation_callback=expires_after(seconds=100) if cb else None)
+        return tab[(name, loc)]
     vals = _values(hist["pool"])
     obs = []
     i = start
@@ -403,7 +419,7 @@ def session(root, hist, start, t0, compress):
                 kwargs = {k: copy.deepcopy(vals[v]) for k, v in c["kwargs"].items()}
                 cname = "meth" if c["fn"].startswith("meth") else {"part2": "part"}.get(c["fn"], c["fn"])
                 n0 = umod.COUNT[cname]
-                f = get(c["fn"], op[0] == "callcb")
+                f = get(c["fn"], op[0] == "callcb", c.get("loc", 0))
                 if op[0] == "check":
                     rec["check"] = bool(f.check_call_in_cache(*args, **kwargs))
                 else:
@@ -419,11 +435,11 @@ def session(root, hist, start, t0, compress):
                     rec["value"] = v
                 rec["executed"] = umod.COUNT[cname] - n0
             elif op[0] == "clear":
-                mem.clear(warn=False)
+                mems[_loc(op)].clear(warn=False)
             elif op[0] == "fclear":
-                get(op[1]).clear(warn=False)
+                get(op[1], False, _loc(op)).clear(warn=False)
             elif op[0] == "reduce_all":
-                mem.reduce_size(**({"items_limit": 0} if op[1] == "items" else {"bytes_limit": 0}))
+                mems[_loc(op)].reduce_size(**({"items_limit": 0} if op[1] == "items" else {"bytes_limit": 0}))
             elif op[0] == "advance":
                 clock.now += op[1]
         except BaseException as e:  # noqa
@@ -459,7 +475,7 @@ def run_history(hist):
         vals = _values(hist["pool"])
         ops = hist["ops"]
         live = {}            # key -> time stored
-        store_partial = [None]
+        store_partial = {}
         t = 1.7e9
         compress = False
         i = 0
@@ -477,27 +493,32 @@ def run_history(hist):
                 h.update(repr((rec.get("executed"), rec.get("check"), "exc" in rec)).encode())
                 if op[0] == "advance":
                     tcur += op[1]; continue
+                loc = _loc(op)
                 if op[0] in ("clear", "reduce_all"):
                     if "exc" in rec:
                         findings.append(("C06", "maintenance_op_raised", "%s raised %s" % (op, rec["exc"]), {"what": "maintenance_op_raised"}))
-                    live.clear(); stats["evictions"] += 1; continue
+                    for k in [k for k in live if k[2] == loc]:
+                        del live[k]
+                    stats["evictions"] += 1; continue
                 if op[0] == "fclear":
-                    for k in [k for k in live if k[0] == op[1]]:
+                    for k in [k for k in live if k[0] == op[1] and k[2] == loc]:
                         del live[k]
                     stats["evictions"] += 1
                     continue
                 c = op[1]
+                if loc:
+                    stats["calls_at_second_location"] += 1
                 if c["fn"] in ("part", "part2", "part3"):
                     # functools.partial objects have no name: all of them share one place in the store, and the stored
                     # "source" (wrapped function + bound arguments) tells them apart -- using another partial is a
                     # source change that invalidates the entries of the previous one
-                    if store_partial[0] != c["fn"]:
-                        for k in [k for k in live if k[0] in ("part", "part2", "part3") and k[0] != c["fn"]]:
+                    if store_partial.get(loc) != c["fn"]:
+                        for k in [k for k in live if k[0] in ("part", "part2", "part3") and k[0] != c["fn"] and k[2] == loc]:
                             del live[k]
                         stats["partial_switches"] += 1
-                    store_partial[0] = c["fn"]
+                    store_partial[loc] = c["fn"]
                 want = plain_value(umod, vals, c)
-                key = (c["fn"], repr(want))        # the value spells out every non-ignored bound argument, type-aware
+                key = (c["fn"], repr(want), loc)        # the value spells out every non-ignored bound argument, type-aware
                 is_live = key in live and (op[0] != "callcb" or tcur - live[key] < 100)
                 if op[0] == "callcb" and key in live and not is_live:
                     del live[key]                   # joblib clears the expired entry
@@ -550,8 +571,8 @@ def sig_shape(hist, name):
 
 
 def describe(hist, c):
-    return "%s(%s%s)" % (c["fn"], ", ".join(_txt(hist, k) for k in c["args"]),
-                         "".join(", %s=%s" % (k, _txt(hist, v)) for k, v in c["kwargs"].items()))
+    return "%s%s(%s%s)" % ("[second store location] " if c.get("loc") else "", c["fn"], ", ".join(_txt(hist, k) for k in c["args"]),
+                           "".join(", %s=%s" % (k, _txt(hist, v)) for k, v in c["kwargs"].items()))
 
 
 def shrink_history(hist):
